@@ -292,6 +292,12 @@ def classify(results):
             kind = "model"
         elif cls == "pointer_arithmetic" or "pointer arithmetic" in desc:
             kind = "ptrarith"
+        elif cls == "pointer" and desc.startswith("same object violation"):
+            # CBMC 6.11 reports p - a as "not the same object" when p is the one-past-the-end pointer of a
+            # variable-length array (valid C; reproduced on a 3-line program, fixed-size arrays are fine).  Pointer
+            # subtraction checks are therefore reported with the pointer-arithmetic class (separately, never as a
+            # violation on their own); out-of-bounds ACCESSES are still caught by the dereference checks.
+            kind = "ptrarith"
         fails.append({"name": name, "desc": desc, "function": fn, "cls": cls, "kind": kind,
                       "file": loc.get("file"), "line": loc.get("line"), "status": st,
                       "trace": r.get("trace")})
@@ -340,18 +346,35 @@ def run_query(pid, q, tier, keep=False, verbose=False):
         solver = q.solver or "cadical"
         cmd = cbmc_cmd(q, gb, False, solver)
         res["cmd"] = " ".join(cmd)
-        rc, out, err, secs = run(cmd, timeout=tmo, mem_gb=MEM_GB)
-        res["solver"] = solver
-        res["solver_s"] = round(secs, 2)
-        if rc == -9:
-            res["status"] = "timeout"
-            return res
-        pj = parse_json(out)
-        if rc not in (0, 10) or pj is None or pj["results"] is None:
-            res["status"] = "cbmc-error"
-            res["error"] = (out[-1500:] + "\n" + (err or "")[-1500:])
-            return res
-        total, ok, fails = classify(pj["results"])
+        for attempt in range(4):
+            rc, out, err, secs = run(cmd, timeout=tmo, mem_gb=MEM_GB)
+            res["solver"] = solver
+            res["solver_s"] = round(res.get("solver_s", 0) + secs, 2)
+            if rc == -9:
+                res["status"] = "timeout"
+                return res
+            pj = parse_json(out)
+            if rc not in (0, 10) or pj is None or pj["results"] is None:
+                res["status"] = "cbmc-error"
+                res["error"] = (out[-1500:] + "\n" + (err or "")[-1500:])
+                return res
+            total, ok, fails = classify(pj["results"])
+            # A loop of the repository that the query does not bound explicitly hit the default bound (e.g. a loop that a
+            # refactoring moved into a new helper): raise the bound for exactly those loops and decide again.  Loops with
+            # an explicit bound and queries whose bounds are derived from the input size (lib_unwind_violation) are
+            # never adapted - there a failing unwinding assertion is a result, not a tuning matter.
+            explicit = set(u.split(":")[0] for u in q.unwindset)
+            grow = sorted(set(re.sub(r"\.unwind\.(\d+)$", r".\1", f["name"]) for f in fails
+                              if f["kind"] == "unwind" and (f.get("file") or "").startswith(REPO + "/")))
+            grow = [g for g in grow if g not in explicit]
+            if not grow or q.lib_unwind_violation or attempt == 3 or \
+                    any(f["kind"] not in ("unwind",) for f in fails):
+                break
+            bound = max(q.unwind, 8) * (2 ** (attempt + 1))
+            res.setdefault("auto_unwind", {}).update({g: bound for g in grow})
+            i = cmd.index("--unwindset") + 1
+            kept = [u for u in cmd[i].split(",") if u.split(":")[0] not in grow]
+            cmd[i] = ",".join(kept + ["%s:%d" % (g, bound) for g in grow])
         res["obligations"] = total
         res["discharged"] = ok
         res["fails"] = fails
@@ -388,6 +411,9 @@ def run_query(pid, q, tier, keep=False, verbose=False):
                 res["error"] = "witness: " + err
                 return res
             cmdw = cbmc_cmd(q, gbw, True, solver)
+            if res.get("auto_unwind"):
+                i = cmdw.index("--unwindset") + 1
+                cmdw[i] = cmdw[i] + "," + ",".join("%s:%d" % kv for kv in res["auto_unwind"].items())
             rc, out, err, secs = run(cmdw, timeout=tmo, mem_gb=MEM_GB)
             res["witness_s"] = round(secs, 2)
             reached = False
@@ -587,9 +613,19 @@ def check(pid, tier, only=None, keep=False, verbose=False):
                         "solver": r.get("solver"), "solver_s": r.get("solver_s"),
                         "witness_s": r.get("witness_s"), "total_s": r.get("seconds"),
                         "cbmc_properties": r.get("obligations"), "cbmc_properties_ok": r.get("discharged"),
-                        "required": r.get("required"), "note": r.get("note"),
+                        "required": r.get("required"), "note": r.get("note"), "auto_unwind": r.get("auto_unwind"),
                         "units": r.get("srcs"), "scaled": r.get("scaled") or None,
                         "failed": [finding_key(f) for f in r.get("fails", [])][:10] or None})
+    # large runs: full detail for every query that did not simply pass plus an evenly spaced selection of the rest;
+    # every query still appears in "all_queries" with verdict and time
+    all_queries = [[x["query"], x["verdict"], x["total_s"]] for x in samples]
+    SAMPLE_CAP = 200
+    if len(samples) > SAMPLE_CAP:
+        odd = [x for x in samples if x["verdict"] != "pass"][:SAMPLE_CAP]
+        rest = [x for x in samples if x["verdict"] == "pass"]
+        room = max(SAMPLE_CAP - len(odd), 20)
+        step = max(1, len(rest) // room)
+        samples = odd + rest[::step][:room]
     meta = getattr(mod, "META", {})
     ev = {
         "property_id": pid, "tier": tier, "seed": int(os.environ.get("VERIF_SEED", "0")),
@@ -602,6 +638,7 @@ def check(pid, tier, only=None, keep=False, verbose=False):
                     "every property assertion turned into an assumption and a final assert(0)) was "
                     "reachable, i.e. assumptions satisfiable and the assertions actually reached",
             "samples": samples,
+            "all_queries": all_queries,
             "obligations": sum(r.get("obligations", 0) for r in results),
             "discharged": sum(r.get("discharged", 0) for r in results),
             "checker_cmd": "goto-cc + goto-instrument + cbmc 6.11 (see samples[].query; "
